@@ -16,6 +16,7 @@ import glob
 import json
 import os
 import re
+from fractions import Fraction
 import subprocess
 
 import vplib
@@ -97,11 +98,27 @@ def parse_line(line):
 TOKSPLIT = re.compile(r"([ ,:;=\[\]|])")
 
 
+INTERP_COMPARED = [0]
+
+
 def tokens_equal(mt, ct):
     if mt == ct:
         return True
     if mt == "?":
         return True
+    if mt.startswith("q"):
+        # value of a vector parameter between its knots: the exact rational of the rfi model (C10) in 1/64 units
+        # against the double the library returned; 1e-9 relative to max(64, |value|) (orders up to 5 on small
+        # integer data; a query next to a pole of the interpolant, |value| > 1e6 units, is not compared)
+        try:
+            mv = Fraction(mt[1:])
+            cv = float(ct[1:] if ct.startswith("~") else ct)
+        except (ValueError, ZeroDivisionError):
+            return False
+        if abs(mv) > 1e6:
+            return True
+        INTERP_COMPARED[0] += 1
+        return abs(float(mv) - cv) <= 1e-9 * max(64.0, abs(float(mv)))
     if mt.startswith("~"):
         try:
             mv = float(mt[1:])
@@ -442,8 +459,11 @@ class Gen(object):
             fs = list(range(1, 1 + self.rng.choice([3, 4, 4, 5])))
         elif r < 0.7:
             fs = [1]
-        elif r < 0.8:
+        elif r < 0.74:
             fs = [self.rng.choice([2, 3]) + i for i in range(self.rng.choice([1, 2, 3]))]      # starts above 1
+        elif r < 0.78:
+            # knots with gaps: integer queries between them go through _vnacal_rfi (orders 2..5, n up to 9)
+            fs = sorted(self.rng.sample(range(0, 16), self.rng.choice([2, 3, 4, 5, 6, 9])))
         elif r < 0.9:
             fs = [0, 1, 2, 3, 4, 5, 6][: self.rng.choice([2, 7])]
         else:
@@ -485,6 +505,12 @@ class Gen(object):
         self.do("delp %d" % self.some_handle())
 
     def op_getv(self):
+        gapped = [h for h in self.visible() if self.pinfo.get(h, ("?",))[0] == "v" and len(self.pinfo[h][1]) >= 2
+                  and self.pinfo[h][1][-1] - self.pinfo[h][1][0] >= len(self.pinfo[h][1])]
+        if gapped and self.rng.random() < 0.5:
+            h = self.rng.choice(gapped)
+            fs = self.pinfo[h][1]
+            return self.do("getv %d %d" % (h, self.rng.randrange(max(0, fs[0] - 1), fs[-1] + 2)))
         self.do("getv %d %d" % (self.some_handle(), self.rng.choice([1, 2, 2, 3, 4, 5, 7, 0])))
 
     def free_id(self):
@@ -500,7 +526,9 @@ class Gen(object):
         ty = self.rng.choice(VALID_TYPES if dim == 1 else [0, 1, 2, 3, 6, 8])
         if r > 0.95:
             ty, dim = self.rng.choice([(7, 1), (9, 1), (-1, 1), (0, 0), (1, -1)])
-        nf = self.rng.choice([1, 2, 2, 3])
+        # 0 frequencies are accepted by vnacal_new_alloc: no range tests, set_frequency_vector reads nothing, solve
+        # always succeeds, the calibration has no fmin / fmax, solved unknowns stay without a value
+        nf = self.rng.choice([1, 2, 2, 3]) if self.rng.random() >= 0.08 else 0
         st = self.do("nalloc %d %d %d %d" % (i, ty, dim, nf))
         if st["r"] == "ok":
             self.vn[i] = {"dim": dim, "ty": ty, "nf": nf, "fvalid": False, "f0": None, "std": [], "unk": {},
@@ -514,6 +542,8 @@ class Gen(object):
         if i is None:
             return self.op_nalloc()
         f0 = 1 if self.rng.random() < 0.85 else self.rng.choice([0, 2, 3, -1])
+        if self.vn[i]["nf"] == 0 and self.rng.random() < 0.5:
+            f0 = self.rng.choice([-7, -1, 0, 40])       # never read: accepted
         st = self.do("setf %d %d" % (i, f0))
         if st["r"] == "0":
             v = self.vn[i]
@@ -530,7 +560,7 @@ class Gen(object):
             vals = [self.value_at(h, f) for f in fs]
             if all(x is not None for x in vals):
                 info = self.pinfo[h]
-                if info[0] == "v" and not (info[1][0] <= fs[0] and info[1][-1] >= fs[-1]):
+                if info[0] == "v" and fs and not (info[1][0] <= fs[0] and info[1][-1] >= fs[-1]):
                     continue
                 out.append((h, vals))
         return out
@@ -627,6 +657,8 @@ class Gen(object):
         """1: surely solvable, 0: surely 'insufficient standards', None: do not ask"""
         if not v["fvalid"]:
             return -1                    # protocol error (frequency vector missing), oracle bit unused
+        if v["nf"] == 0:
+            return 1                     # nothing to solve: succeeds whatever the standards are
         if v["taint"]:
             return None
         if v["dim"] == 1:
@@ -1023,6 +1055,27 @@ def directed_scripts():
         "solve 1 1", "addcal 1 c7", "nalloc 2 8 2 1", "setf 2 1", "addstd 2 2 2 1 2 -64 0 64 0", "addstd 2 2 1 0 2 64 0 0 0",
         "addstd 2 2 0 2 2 0 0 -64 0", "addstd 2 4 0 1 1 0 0", "solve 2 1", "addcal 2 c8", "getcal 0", "getcal 1",
         "addcal 2 c9", "solve 0 1", "addcal 0 c7", "getcal 0", "nfree 0", "nfree 2", "free"]
+    # vnacal_new_t without frequency points (vnacal_new_alloc accepts 0): set_frequency_vector reads no element (a
+    # negative start is not seen, no range test), the range tests of add_* are skipped (vn_frequencies_valid &&
+    # vn_frequencies > 0), solve needs the vector to have been "given", the calibration has no fmin / fmax
+    # c16_values_vector: vector parameters with gaps between the knots (n = 2, 3, 4, 5, 6, 9 points: rfi orders 2..5,
+    # windows at both ends and in the middle), asked at EVERY integer frequency of the band and one beyond, twice in
+    # different orders (the cached segment must not matter)
+    vb = []
+    vecs = [[2, 9], [0, 4, 7], [1, 3, 8, 12], [2, 3, 7, 10, 15], [0, 2, 5, 6, 11, 13], [1, 2, 4, 7, 8, 10, 11, 13, 15]]
+    for k, fsv in enumerate(vecs):
+        gsv = [((7 * j * j + 11 * k + 3 * j) % 97 - 48, (5 * j + 13 * k * j + k) % 89 - 44) for j in range(len(fsv))]
+        vb.append("mkv %d %s %s" % (len(fsv), " ".join(map(str, fsv)), " ".join("%d %d" % g for g in gsv)))
+    for k, fsv in enumerate(vecs):
+        qs = list(range(max(0, fsv[0] - 1), fsv[-1] + 2))
+        vb += ["getv %d %d" % (3 + k, f) for f in qs] + ["getv %d %d" % (3 + k, f) for f in reversed(qs)]
+    out["vector_between_knots"] = vb + ["free"]
+    out["zero_frequencies"] = [
+        "mkv 2 5 6 10 0 20 0", "mks 20 5", "nalloc 0 0 1 0", "solve 0 1", "addstd 0 1 3 0", "setf 0 -5", "addstd 0 1 3 0",
+        "addstd 0 1 0 0", "addstd 0 1 1 0", "addstd 0 1 2 0", "solve 0 1", "addcal 0 c1", "getcal 0", "end", "find c1",
+        "nalloc 1 1 1 0", "setf 1 7", "setf 1 -1", "addstd 1 1 3 0", "addstd 1 1 4 0", "delp 3", "addstd 1 1 3 0", "mku 4",
+        "addstd 1 1 5 0", "getv 5 1", "nalloc 2 0 1 2", "setf 2 1", "addstd 2 1 3 2 1 1 1 1", "nfree 0", "nfree 1", "getcal 0",
+        "delcal 0", "free"]
     return out
 
 
@@ -1039,17 +1092,20 @@ def run(ctx):
     ]
     ctx.assumptions = ["the numeric part of vnacal_new_solve is outside the model: its success is an oracle input and "
                        "the solved value of an unknown parameter is the measured value supplied by the script",
-                       "rational-function interpolation is not modelled (values asked at knots only)",
+                       "between the knots of a vector parameter the value is the exact-rational rfi model of C10 "
+                       "(CalTabVectorModel.get_value_q); the library's double is compared with it to 1e-9 relative to max(1, |value|) "
+                       "(queries where the interpolant exceeds 1e6/64 are not compared); solved unknown parameters between knots: not compared",
                        "vnacal_make_vector_parameter: the caller's gamma array has at least `frequencies` entries (the C "
                        "code cannot check it; the model answers RUndef otherwise and the script syntax cannot express it)"]
     ctx.rule = ("op scripts (make/delete parameter, new_alloc, set_frequency_vector, add_*, solve, add/delete/find "
                 "calibration, get_*, properties, new_free, vnacal_free) generated against the model and replayed on the "
                 "library; one evaluation = one op line compared; distinct non-trivial = distinct (op, outcome, "
                 "table-shape) classes reached")
+    INTERP_COMPARED[0] = 0
     thorough = ctx.tier == "thorough"
 
     # ------------------------------------------------------------------ 1. Coq
-    vfiles = ["CalTab/CalTabModel.v", "CalTab/TableSpec.v", "CalTab/CalTabProofs.v", "CalTab/CalTabWalks.v", "CalTab/CalTabParams.v",
+    vfiles = ["CalTab/CalTabModel.v", "CalTab/TableSpec.v", "CalTab/CalTabProofs.v", "CalTab/CalTabWalks.v", "CalTab/CalTabParams.v", "CalTab/CalTabVector.v",
               "Properties_C16.v"]
     vfiles = [v for v in vfiles if os.path.exists(os.path.join(vplib.COQDIR, v))]
     coq_ok, res = ctx.coq_obligations(vfiles)
@@ -1180,6 +1236,8 @@ def run(ctx):
     ctx.extra["target_cases_reached"] = cover
     ctx.extra["table_shapes_reached (param allocation, calibration allocation)"] = sorted(shapes)
     ctx.extra["leaks_outside_scope_ignored"] = sorted(str(x) for x in R.ignored_leaks)
+    ctx.extra["vector_values_between_knots_compared (re and im tokens, rfi model vs library)"] = INTERP_COMPARED[0]
+    ctx.obligation("tie:vector values between knots", INTERP_COMPARED[0] > 0, "%d number tokens compared" % INTERP_COMPARED[0])
 
     # ------------------------------------------------------------------ verdict for broken Coq obligations
     if not coq_ok and not found:
